@@ -897,7 +897,7 @@ def install(E):
     reg(r'^core::fmt::|^std::fmt::|^alloc::fmt::|^core::fmt::rt::|Arguments::<.*>::new|^std::fmt::Arguments|'
         r'^alloc::fmt::format|Record::<.*>::new|as (?:[\w]+::)*Logger>::log$|^util::logger::Record|'
         r'^<.* as ToString>::to_string$|^<.* as (?:std::fmt::|core::fmt::)?(?:Display|Debug)>::fmt$|'
-        r'WithContext|^std::string::String|^<str as ToOwned>::to_owned|^<&?str as Into<String>>::into|'
+        r'WithContext|^std::string::String|^<str as (?:std::borrow::|alloc::borrow::)?ToOwned>::to_owned|^<&?str as Into<String>>::into|'
         r'^<String as From<&str>>::from', h_opaque)
 
     def h_deref_ref(E, m, func, argv, guard, mem, dty, caller):
